@@ -285,4 +285,237 @@ theorem spliceBytes_zero_zero (size : Nat) (hs : size ≤ 32) :
   rw [drop_zeroChunk, ← zeros_add, zeroChunk]
   congr 1; omega
 
+/-! ## 3. packed bits -/
+
+/-- `_new_chunk_with_bit` at the byte level -/
+def bitSplice (r : List UInt8) (i : Nat) (v : Bool) : List UInt8 :=
+  let k := (i % 256) / 8
+  let old := (r.getD k 0).toNat
+  let bit := 2 ^ (i % 8)
+  let new := if v then (if old / bit % 2 == 1 then old else old + bit)
+             else (if old / bit % 2 == 1 then old - bit else old)
+  r.set k (UInt8.ofNat new)
+
+theorem chunkWithBit_eq (H : Hash) (chunk : Node) (i : Nat) (v : Bool) :
+    chunkWithBit H chunk i v = .leaf (bitSplice (chunk.root H) i v) := rfl
+
+theorem bitSplice_length (r : List UInt8) (i : Nat) (v : Bool) :
+    (bitSplice r i v).length = r.length := by simp [bitSplice]
+
+theorem bitsToNat_set_key (g : List Bool) (j : Nat) (v : Bool) (hj : j < g.length) :
+    bitsToNat (g.set j v) + (if g[j]?.getD false then 2 ^ j else 0)
+      = bitsToNat g + (if v then 2 ^ j else 0) := by
+  induction g generalizing j with
+  | nil => simp at hj
+  | cons b g ih =>
+    cases j with
+    | zero =>
+      simp only [List.set_cons_zero, bitsToNat_cons, List.getElem?_cons_zero, Option.getD_some,
+        Nat.pow_zero]
+      cases b <;> cases v <;> simp <;> omega
+    | succ j =>
+      have := ih j (by simpa using hj)
+      simp only [List.set_cons_succ, bitsToNat_cons, List.getElem?_cons_succ, Nat.pow_succ]
+      by_cases hx : g[j]?.getD false = true <;> cases v <;> simp [hx] at this ⊢ <;> omega
+
+theorem bitsToNat_set (g : List Bool) (j : Nat) (v : Bool) (hj : j < g.length) :
+    bitsToNat (g.set j v)
+      = if v then (if bitsToNat g / 2 ^ j % 2 == 1 then bitsToNat g else bitsToNat g + 2 ^ j)
+        else (if bitsToNat g / 2 ^ j % 2 == 1 then bitsToNat g - 2 ^ j else bitsToNat g) := by
+  have key := bitsToNat_set_key g j v hj
+  rw [bitsToNat_testBit]
+  by_cases hx : g[j]?.getD false = true <;> cases v <;> simp [hx] at key ⊢ <;> omega
+
+theorem bitsToNat_replicate_false (k : Nat) : bitsToNat (List.replicate k false) = 0 := by
+  induction k with
+  | zero => rfl
+  | succ k ih => simp [List.replicate_succ, bitsToNat_cons, ih]
+
+theorem bitsToNat_append_replicate_false (g : List Bool) (k : Nat) :
+    bitsToNat (g ++ List.replicate k false) = bitsToNat g := by
+  rw [bitsToNat_append, bitsToNat_replicate_false]; simp
+
+theorem padGroup_beyond {α} (per : Nat) (d : α) (xs : List α) (j : Nat)
+    (h : xs.length ≤ per * j) : padGroup per d xs j = List.replicate per d := by
+  apply List.ext_getElem
+  · simp
+  · intro r h1 h2
+    rw [padGroup_getElem, List.getElem_replicate, List.getD_eq_getElem?_getD,
+      List.getElem?_eq_none (by omega)]
+    rfl
+
+/-- byte `m` of the bitfield encoding, as a function of the byte index (zero beyond the end) -/
+def bitByte (bs : List Bool) (m : Nat) : UInt8 := UInt8.ofNat (bitsToNat (padGroup 8 false bs m))
+
+theorem bitByte_beyond (bs : List Bool) (m : Nat) (h : bs.length ≤ 8 * m) : bitByte bs m = 0 := by
+  rw [bitByte, padGroup_beyond 8 false bs m h, bitsToNat_replicate_false]
+  rfl
+
+theorem bitsToBytes_eq_range (bs : List Bool) :
+    bitsToBytes bs = (List.range ((bs.length + 7) / 8)).map (bitByte bs) := by
+  have h := groups_map_pad (per := 8) (by decide) false
+    (fun g => UInt8.ofNat (bitsToNat g)) bs
+  simp only [bitsToNat_append_replicate_false] at h
+  have e : (bs.length + 8 - 1) / 8 = (bs.length + 7) / 8 := by omega
+  rw [e] at h
+  exact h
+
+theorem bitsToBytes_getD (bs : List Bool) (m : Nat) : (bitsToBytes bs).getD m 0 = bitByte bs m := by
+  rw [List.getD_eq_getElem?_getD]
+  by_cases hm : m < (bs.length + 7) / 8
+  · rw [List.getElem?_eq_getElem (by simpa using hm)]
+    simp only [bitsToBytes_eq_range bs, List.getElem_map, List.getElem_range, Option.getD_some]
+  · rw [List.getElem?_eq_none (by simp; omega), bitByte_beyond bs m (by omega)]
+    rfl
+
+/-- chunk `j` of `pack_bits_to_chunks`, as a function of the chunk index -/
+def bitChunk (bs : List Bool) (j : Nat) : Chunk :=
+  (List.range 32).map fun k => bitByte bs (32 * j + k)
+
+theorem packBits_eq_range (bs : List Bool) :
+    packBits bs = (List.range ((bs.length + 255) / 256)).map (bitChunk bs) := by
+  have h := groups_map_pad (per := 32) (by decide) (0 : UInt8) (fun g => g) (bitsToBytes bs)
+  have e : ((bitsToBytes bs).length + 32 - 1) / 32 = (bs.length + 255) / 256 := by
+    rw [bitsToBytes_length]; omega
+  rw [e] at h
+  unfold packBits zeros
+  rw [h]
+  apply List.map_congr_left
+  intro j _
+  simp only [padGroup, bitChunk, bitsToBytes_getD]
+
+theorem packBits_getElem (bs : List Bool) (j : Nat) (hj : j < (packBits bs).length) :
+    (packBits bs)[j] = bitChunk bs j := by
+  simp only [packBits_eq_range bs, List.getElem_map, List.getElem_range]
+
+theorem packBits_length' (bs : List Bool) : (packBits bs).length = (bs.length + 255) / 256 := by
+  rw [packBits_length]; omega
+
+theorem bitChunk_length (bs : List Bool) (j : Nat) : (bitChunk bs j).length = 32 := by
+  simp [bitChunk]
+
+theorem bitChunk_beyond (bs : List Bool) (j : Nat) (h : bs.length ≤ 256 * j) :
+    bitChunk bs j = zeroChunk := by
+  apply List.ext_getElem
+  · simp [bitChunk]
+  · intro k h1 h2
+    simp only [bitChunk, List.length_map, List.length_range] at h1
+    simp only [bitChunk, List.getElem_map, List.getElem_range, zeroChunk, zeros,
+      List.getElem_replicate]
+    exact bitByte_beyond bs _ (by omega)
+
+theorem bitChunk_update (bs bs' : List Bool) (i : Nat) (v : Bool)
+    (hd : ∀ k, bs'.getD k false = if k = i then v else bs.getD k false) (j : Nat) :
+    bitChunk bs' j = if j = i / 256 then bitSplice (bitChunk bs j) i v else bitChunk bs j := by
+  have hb : ∀ m, bitByte bs' m
+      = if m = i / 8 then UInt8.ofNat (bitsToNat ((padGroup 8 false bs m).set (i % 8) v))
+        else bitByte bs m := by
+    intro m
+    unfold bitByte
+    rw [padGroup_update (by decide) false bs bs' i v hd m]
+    split <;> rfl
+  apply List.ext_getElem
+  · split
+    · rw [bitSplice_length, bitChunk_length, bitChunk_length]
+    · rw [bitChunk_length, bitChunk_length]
+  · intro k h1 h2
+    simp only [bitChunk, List.length_map, List.length_range] at h1
+    have hk : (bitChunk bs' j)[k] = bitByte bs' (32 * j + k) := by
+      simp only [bitChunk, List.getElem_map, List.getElem_range]
+    refine hk.trans ?_
+    rw [hb]
+    by_cases hj : j = i / 256
+    · simp only [hj, if_true]
+      have hkk : i % 256 / 8 < (bitChunk bs (i / 256)).length := by
+        rw [bitChunk_length]; omega
+      have hold : ((bitChunk bs (i / 256)).getD (i % 256 / 8) 0).toNat
+          = bitsToNat (padGroup 8 false bs (i / 8)) := by
+        rw [List.getD_eq_getElem?_getD, List.getElem?_eq_getElem hkk, Option.getD_some]
+        simp only [bitChunk, List.getElem_map, List.getElem_range]
+        have e : 32 * (i / 256) + i % 256 / 8 = i / 8 := by omega
+        rw [e, bitByte, toNat_ofNat_bitsToNat (by simp)]
+      unfold bitSplice
+      simp only [hold]
+      rw [List.getElem_set]
+      by_cases hk2 : i % 256 / 8 = k
+      · simp only [hk2, if_true]
+        have e : 32 * (i / 256) + k = i / 8 := by omega
+        rw [if_pos (by omega), bitsToNat_set _ _ _ (by simp; omega), e]
+      · simp only [hk2, if_false]
+        rw [if_neg (by omega)]
+        simp only [bitChunk, List.getElem_map, List.getElem_range]
+    · simp only [hj, if_false]
+      rw [if_neg (by omega)]
+      simp only [bitChunk, List.getElem_map, List.getElem_range]
+
+/-- the packed bit chunks after changing bit `i` (same number of chunks) -/
+theorem packBits_update (bs bs' : List Bool) (i : Nat) (v : Bool)
+    (hcount : (bs'.length + 255) / 256 = (bs.length + 255) / 256)
+    (hd : ∀ k, bs'.getD k false = if k = i then v else bs.getD k false)
+    (hj : i / 256 < (packBits bs).length) :
+    packBits bs' = (packBits bs).set (i / 256) (bitSplice ((packBits bs)[i / 256]) i v) := by
+  have hl : (packBits bs').length = (packBits bs).length := by
+    rw [packBits_length', packBits_length', hcount]
+  apply List.ext_getElem
+  · simp [hl]
+  · intro j h1 h2
+    rw [packBits_getElem bs' j h1, bitChunk_update bs bs' i v hd j, List.getElem_set]
+    by_cases hji : i / 256 = j
+    · subst hji
+      simp only [if_true]
+      rw [packBits_getElem bs _ hj]
+    · have : ¬ j = i / 256 := fun e => hji e.symm
+      simp only [this, hji, if_false]
+      rw [packBits_getElem bs j]
+
+theorem packBits_set (bs : List Bool) (i : Nat) (v : Bool) (hi : i < bs.length)
+    (hj : i / 256 < (packBits bs).length) :
+    packBits (bs.set i v) = (packBits bs).set (i / 256) (bitSplice ((packBits bs)[i / 256]) i v) :=
+  packBits_update bs (bs.set i v) i v (by simp) (getD_set_eq bs i v false hi) hj
+
+theorem packBits_append_same (bs : List Bool) (v : Bool) (hne : bs.length % 256 ≠ 0)
+    (hj : bs.length / 256 < (packBits bs).length) :
+    packBits (bs ++ [v]) = (packBits bs).set (bs.length / 256)
+      (bitSplice ((packBits bs)[bs.length / 256]) bs.length v) :=
+  packBits_update bs (bs ++ [v]) bs.length v (by simp; omega) (getD_append_singleton bs v false) hj
+
+theorem bitSplice_mod (r : List UInt8) (i : Nat) (v : Bool) (h : i % 256 = 0) :
+    bitSplice r i v = bitSplice r 0 v := by
+  have h8 : i % 8 = 0 := by omega
+  simp only [bitSplice, h, h8]
+
+theorem packBits_append_new (bs : List Bool) (v : Bool) (hz : bs.length % 256 = 0) :
+    packBits (bs ++ [v]) = packBits bs ++ [bitSplice zeroChunk 0 v] := by
+  have hc : ((bs ++ [v]).length + 255) / 256 = (bs.length + 255) / 256 + 1 := by
+    simp only [List.length_append, List.length_singleton]; omega
+  have hc2 : (bs.length + 255) / 256 = bs.length / 256 := by omega
+  have hd := getD_append_singleton bs v false
+  refine (packBits_eq_range (bs ++ [v])).trans ?_
+  rw [hc, List.range_succ, List.map_append]
+  refine Eq.trans ?_ (congrArg (· ++ [bitSplice zeroChunk 0 v]) (packBits_eq_range bs)).symm
+  congr 1
+  · apply List.map_congr_left
+    intro j hj
+    rw [List.mem_range] at hj
+    rw [bitChunk_update bs (bs ++ [v]) bs.length v hd j, if_neg (by omega)]
+  · simp only [List.map_cons, List.map_nil]
+    rw [bitChunk_update bs (bs ++ [v]) bs.length v hd _, if_pos (by omega),
+      bitChunk_beyond bs _ (by omega), bitSplice_mod _ _ _ hz]
+
+theorem packBits_pop_same (bs : List Bool) (hpos : 0 < bs.length) (hne : (bs.length - 1) % 256 ≠ 0)
+    (hj : (bs.length - 1) / 256 < (packBits bs).length) :
+    packBits bs.dropLast = (packBits bs).set ((bs.length - 1) / 256)
+      (bitSplice ((packBits bs)[(bs.length - 1) / 256]) (bs.length - 1) false) :=
+  packBits_update bs bs.dropLast (bs.length - 1) false (by simp; omega) (getD_dropLast bs false) hj
+
+theorem packBits_pop_remove (bs : List Bool) (hpos : 0 < bs.length)
+    (hz : (bs.length - 1) % 256 = 0) :
+    packBits bs.dropLast = (packBits bs).dropLast ∧
+      (bs.length - 1) / 256 = (packBits bs).length - 1 := by
+  have hne : bs ≠ [] := List.ne_nil_of_length_pos hpos
+  constructor
+  · conv => rhs; rw [← List.dropLast_concat_getLast hne]
+    rw [packBits_append_new _ _ (by simpa using hz), List.dropLast_concat]
+  · rw [packBits_length']; omega
+
 end Rmk.StepRepr
